@@ -111,7 +111,7 @@ else:
 KF_RAT_LOWNIB = dict(finding="KF-C17-RAT-low-nibble-mask", when="val % 16 >= 8")
 contract(module="coco.rattoppm", qualname="convert.dump", **DUMP)
 contract(module="coco.rattoppm", qualname="convert.dump", tag="C19", **DUMP_LOUD)
-contract(module="coco.rattoppm", qualname="convert", tag="C17",
+contract(module="coco.rattoppm", qualname="convert", tag="C17", also=["C18"],
          params=RAT_PARAMS,
          # "valid encoding of image img": header complete, packed flag set, and the token stream - read by the
          # *definition* of the format (a byte other than the escape byte denotes itself once; escape, n, v denotes n
